@@ -25,6 +25,7 @@ are ``unspecified`` (counted, never asserted).
 from __future__ import annotations
 
 import itertools
+import re
 import sys
 import types
 
@@ -47,6 +48,11 @@ SCALARS = [["int"], ["str"], ["bool"], ["none"]]
 # naturally re-used at several levels with different bindings)
 PLAIN_TV = ["T0", "T1", "T2"]
 TVT = "Ts0"
+
+
+def site(e):
+    """exc_site with the per-case class numbers removed (otherwise every case is its own bucket)."""
+    return re.sub(r"\d+", "N", exc_site(e))
 
 
 class Skip(Exception):
@@ -617,6 +623,10 @@ def known_tags(h: Hier, case, exp):
                     tags.add("bare_only_tvt")
             if b["args"] == [] and bp == [TVT]:
                 tags.add("empty_tvt_args")
+    for t in exp.values():
+        for n in walk(t):
+            if n[0] == "gen" and h.params(n[1]) == [TVT] and n[2] == [["unspec_seq"]]:
+                tags.add("bare_only_tvt")        # X[*tuple[Any, ...]]: the same call as the bare class
     for j, n in used:
         params = h.params(j)
         if not params:
@@ -743,6 +753,7 @@ def _check_built(ctx, case, built):  # noqa: C901, PLR0912, PLR0915
     tags = known_tags(h, case, exp)
     tagstr = "+".join(tags) or "-"
     cls = built["cls"][qi]
+    labels_extra = []
     if not params or bare:
         tp = cls
     elif not q["args"]:
@@ -750,10 +761,31 @@ def _check_built(ctx, case, built):  # noqa: C901, PLR0912, PLR0915
     else:
         ns = sys.modules[built["mod"]].__dict__
         names = {"leaf": built["leaf"].__name__, "cls": [c.__name__ for c in built["cls"]]}
-        tp = eval(render(["gen", qi, q["args"]], names, "typing"), ns)  # noqa: S307
+        qsrc = render(["gen", qi, q["args"]], names, "typing")
+        mode = int(case.get("unpack_spelled") or 0)
+        if mode and TVT in params:
+            # spell a run of arguments as ONE unpacked tuple:  X[int, Unpack[Tuple[str, bool]]].  mode 1: exactly
+            # the arguments binding the TypeVarTuple; 2: the whole list; 3 / 4: one more neighbour right / left
+            # (the unpacked tuple then also feeds an ordinary TypeVar)
+            lo = params.index(TVT)
+            hi = lo + len(q["args"]) - (len(params) - 1)
+            if mode == 2:
+                lo, hi = 0, len(q["args"])
+            elif mode == 3:
+                hi = min(hi + 1, len(q["args"]))
+            elif mode == 4:
+                lo = max(lo - 1, 0)
+            if hi > lo:
+                parts = [render(a, names, "typing") for a in q["args"]]
+                qsrc = (f"{names['cls'][qi]}[" + ", ".join(
+                    [*parts[:lo], "Unpack[Tuple[" + ", ".join(parts[lo:hi]) + "]]", *parts[hi:]]) + "]")
+                labels_extra.append("query_args_as_unpacked_tuple")
+                if mode != 1 and len(params) > 1:
+                    labels_extra.append("unpacked_tuple_feeds_plain_typevar")
+        tp = eval(qsrc, ns)  # noqa: S307
 
     labels, levels, permuted = structure_labels(h, case, defs, qi)
-    labels += [f"kind:{kind}", f"debug:{case['debug']}", f"spelling:{case['spelling']}"]
+    labels += [f"kind:{kind}", f"debug:{case['debug']}", f"spelling:{case['spelling']}", *labels_extra]
     if bare:
         labels.append("bare_query")
         for p in params:
@@ -773,7 +805,7 @@ def _check_built(ctx, case, built):  # noqa: C901, PLR0912, PLR0915
     distinct_tvs = {tv for i in [qi, *h.ancestors(qi)] for tv in h.params(i)}
     nontrivial = bool(exp) and (levels >= 2 or (len(distinct_tvs) >= 2 and permuted))
     key = [case["kind"], case["classes"], case["query"], case["bound"], case["constr"], case["debug"],
-           case["spelling"]]
+           case["spelling"], int(case.get("unpack_spelled") or 0) if TVT in params else 0]
     ctx.case(key, nontrivial,
              sample={"kind": kind, "source": built["src"].split("\n\n", 1)[-1][-1500:], "query": repr(tp)[:200],
                      "expected": {n: repr(t) for n, t in exp.items()}, "labels": labels},
@@ -808,9 +840,9 @@ def _check_built(ctx, case, built):  # noqa: C901, PLR0912, PLR0915
                 # some field type is not fixed by the docs, so nothing says it must be loadable at all
                 ctx.count("unspecified_creation_refused_with_unspecified_field")
             else:
-                viol("creation_failed", (what, type(e).__name__, exc_site(e)), describe(e))
+                viol("creation_failed", (what, type(e).__name__, site(e)), describe(e))
         except Exception as e:  # noqa: BLE001 -- a foreign exception out of get_loader/get_dumper is never legitimate
-            viol("creation_failed", (what, type(e).__name__, exc_site(e)), describe(e))
+            viol("creation_failed", (what, type(e).__name__, site(e)), describe(e))
 
     spec_fields = [n for n in exp if n not in unspec_fields]
     if unspec_fields:
@@ -847,13 +879,14 @@ def _check_built(ctx, case, built):  # noqa: C901, PLR0912, PLR0915
                     load_ok = False
                 else:
                     first = next(iter(leaves(e)))
+                    fname = first[0][0] if first[0] else None
                     viol("conforming_data_rejected",
-                         (type(first[1]).__name__, "root" if not first[0] else "field"),
+                         (type(first[1]).__name__, "root") if fname is None else ("-", "field"),
                          f"data={data!r}\n{describe(e)}\nleaves={[(tr, describe(x)) for tr, x in leaves(e)][:4]}",
                          field=first[0][0] if first[0] else None)
                     return      # one root cause per case
             except Exception as e:  # noqa: BLE001
-                viol("load_crashed", (type(e).__name__, exc_site(e)), f"data={data!r}\n{describe(e)}")
+                viol("load_crashed", (type(e).__name__, site(e)), f"data={data!r}\n{describe(e)}")
                 return
         if loaded is not None:
             for n in spec_fields:
@@ -879,7 +912,7 @@ def _check_built(ctx, case, built):  # noqa: C901, PLR0912, PLR0915
                 try:
                     out = dumper(obj)
                 except Exception as e:  # noqa: BLE001
-                    viol("dump_wrong", (f"crashed:{type(e).__name__}:{exc_site(e)}",),
+                    viol("dump_wrong", (f"crashed:{type(e).__name__}:{site(e)}",),
                          f"{what} object={obj!r}\n{describe(e)}")
                     break
                 if not same_data(out, data):
@@ -951,7 +984,7 @@ def _check_built(ctx, case, built):  # noqa: C901, PLR0912, PLR0915
                         return
                 continue
             except Exception as e:  # noqa: BLE001
-                viol("load_crashed", (type(e).__name__, exc_site(e)), f"probe={probe!r}\n{describe(e)}")
+                viol("load_crashed", (type(e).__name__, site(e)), f"probe={probe!r}\n{describe(e)}")
                 return
             if not fits:
                 viol("nonconforming_data_accepted", (role, why),
@@ -1125,6 +1158,7 @@ def st_case(draw):  # noqa: C901, PLR0912, PLR0915
     variants = [draw(_R12), draw(_R12)]
     slots = draw(st.booleans())
     bare_query = chance(draw, 1, 5)
+    unpack_spelled = draw(st.sampled_from([0, 2, 1, 3, 4, 0]))
     deep_query = chance(draw, 5, 6)
     allow_known = chance(draw, 1, 16)
     diamond_mode = kind in ("dataclass", "attrs", "typeddict") and chance(draw, 1, 5)
@@ -1260,7 +1294,7 @@ def st_case(draw):  # noqa: C901, PLR0912, PLR0915
     return {
         "kind": kind, "spelling": spelling, "bound": bound, "constr": constr,
         "classes": classes, "query": {"cls": qi, "args": qargs}, "debug": debug,
-        "variants": variants, "slots": slots, "steered": not allow_known,
+        "variants": variants, "slots": slots, "unpack_spelled": unpack_spelled, "steered": not allow_known,
     }
 
 
